@@ -109,6 +109,16 @@ def st_idiom(draw, allow_load_q=False):
                 noise = [f"set {draw(st.sampled_from(['C', 'M'])) if idx != '15' else 'M'}{idx} {draw(st.integers(0, nq - 1))}"]
                 info["same_index_classical_set"] = True
             return [f"set {ra} {a}", f"set {rb} {b}"] + noise + [f"{g2} {ra} {rb}"] + tail
+        if k == 9 and nq >= 2 and draw(st.booleans()):
+            # a qubit is released and allocated again through the same register; the register still names it for the next gate
+            a = draw(st.integers(0, nq - 1))
+            b = draw(st.sampled_from([x for x in range(nq) if x != a]))
+            rb = draw(st.sampled_from([r for r in qregs if r != ra]))
+            if a != 0 and b != 0:
+                info["cc"] = True
+            info["realloc"] = True
+            # (measured first: releasing a qubit that is still entangled is not a defined operation)
+            return [f"set {ra} {a}", f"meas {ra} M0", f"qfree {ra}", f"qalloc {ra}", f"init {ra}", f"set {rb} {b}", f"{draw(st.sampled_from(['cnot', 'cphase']))} {ra} {rb}"]
         if k == 8 and nq <= 4 and not info.get("sdk_mov") and draw(st.booleans()):
             # what the SDK emits when it moves a fresh pair to memory: the state of the communication qubit (id 0) is moved into
             # a freshly initialised qubit, both named through classical registers whose values are computed at run time
@@ -130,7 +140,29 @@ def st_idiom(draw, allow_load_q=False):
                 info["ifs"] += 1
                 lab = new_label("IF_EXIT")
                 cond = draw(st.sampled_from(["beq", "bne", "blt", "bge"]))
-                out += [f"load R1 @0[{draw(st.integers(0, 5))}]", f"{cond} R1 {draw(st.integers(0, 2))} {lab}"] + block(depth + 1) + [f"{lab}:"]
+                keep = draw(st.integers(0, 2)) == 0 and nq >= 3
+                pre, inside, post = [], [], []
+                if keep:
+                    # a qubit register set before the conditional keeps its value through it (unless the taken body sets it again,
+                    # after a carbon-carbon gate) and is used afterwards without being set again
+                    rp = draw(st.sampled_from(qregs))
+                    if QL != "Q0" and draw(st.booleans()):
+                        rp = "Q0"  # the first register a transpiler would look at when it needs a scratch register
+                    others_r = [r for r in qregs if r != rp]
+                    if len(others_r) >= 2:
+                        pre = [f"set {rp} {draw(st.integers(0, nq - 1))}"]
+                        x, y = draw(st.sampled_from([(1, 2), (2, 1)]))
+                        ccgate = [f"set {others_r[0]} {x}", f"set {others_r[1]} {y}", f"{draw(st.sampled_from(['cnot', 'cphase']))} {others_r[0]} {others_r[1]}"]
+                        if draw(st.booleans()):
+                            inside = ccgate  # the gate is part of the conditional body
+                        else:
+                            pre = pre + ccgate  # the gate runs in any case; only the later `set` is conditional
+                        if draw(st.booleans()):
+                            inside = inside + [f"set {rp} {draw(st.integers(0, nq - 1))}"]
+                        post = [f"{draw(st.sampled_from(GATES1))} {rp}"]
+                        info["cc"] = True
+                        info["kept_across_if"] = True
+                out += pre + [f"load R1 @0[{draw(st.integers(0, 5))}]", f"{cond} R1 {draw(st.integers(0, 2))} {lab}"] + inside + block(depth + 1) + [f"{lab}:"] + post
             elif loop_regs:
                 info["loops"] += 1
                 r = loop_regs.pop()
@@ -348,7 +380,7 @@ def shard(ctx: Ctx) -> None:
             return
         i = case["info"]
         nt = i["cc"] or i["end_label"] or i["ifs"] > 0
-        labels = ["idiom", f"nq:{case['nq']}", "debug" if case["debug"] else "nodebug"] + [k for k in ("cc", "end_label", "stress", "label_at_0", "load_single", "full16", "sdk_mov", "same_index_classical_set") if i.get(k)] + (["loop"] if i["loops"] else []) + (["if"] if i["ifs"] else [])
+        labels = ["idiom", f"nq:{case['nq']}", "debug" if case["debug"] else "nodebug"] + [k for k in ("cc", "end_label", "stress", "label_at_0", "load_single", "full16", "sdk_mov", "same_index_classical_set", "realloc", "kept_across_if") if i.get(k)] + (["loop"] if i["loops"] else []) + (["if"] if i["ifs"] else [])
         stt.case(str(case.get("prologue")) + case["text"] + str(case["outcomes"]) + str(case["debug"]), nt, labels, sample={"text": case["text"], "debug": case["debug"]} if len(case["text"]) < 700 else None)
 
     allow = KF_LOAD not in ctx.open_findings
